@@ -7,9 +7,11 @@ git -C /repo diff --quiet || { echo "/repo has uncommitted changes"; exit 3; }
 unset VERIF_REPO VERIF_EVIDENCE_DIR
 out="$(mktemp -d /var/tmp/verif_runall.XXXXXX)"
 rc=0
-for pid in $(python3 -c "import json;print(' '.join(c['property_id'] for c in json.load(open('MANIFEST.json'))['checks']))"); do
+pids="$*"
+[ -z "$pids" ] && pids="$(python3 -c "import json;print(' '.join(c['property_id'] for c in json.load(open('MANIFEST.json'))['checks']))")"
+for pid in $pids; do
   rm -f "evidence/$pid.json"
-  bin/vcheck "$pid" --tier quick > "$out/$pid.txt" 2>&1; e=$?
+  VERIF_WRITE_BASELINE=1 bin/vcheck "$pid" --tier quick > "$out/$pid.txt" 2>&1; e=$?
   echo "$pid exit=$e $(grep -E 'obligations discharged' "$out/$pid.txt" | cut -c1-120)"
   [ $e -ne 0 ] && { rc=1; grep -E "VIOLATION|UNDEC|CHECKER" "$out/$pid.txt" | head -5; }
   grep -q "VIOLATION" "$out/$pid.txt" && rc=1
